@@ -298,8 +298,16 @@ def run_case(acc, cseed, tmpdir):
             os.unlink(o3)
         sk = g1.new_key(rng)
         d = sk.privkey.secret_multiplier.to_bytes(32, "big").hex()
-        code, so = run_main(signapp.main, ["signapp.py", "key", "-o", o3, "-k", d, "-a", app2,
-                                           "-i", str(it2)])
+        if rng.random() < 0.3:
+            # (the image handed over through a pipe: a thing that can be read once)
+            from .c19 import as_pipe
+            acc.count("key_runs_reading_the_image_through_a_pipe")
+            with as_pipe(app2) as pp:
+                code, so = run_main(signapp.main, ["signapp.py", "key", "-o", o3, "-k", d,
+                                                   "-a", pp, "-i", str(it2)])
+        else:
+            code, so = run_main(signapp.main, ["signapp.py", "key", "-o", o3, "-k", d, "-a",
+                                               app2, "-i", str(it2)])
         acc.evaluations += 1
         acc.count("key_runs_creating_the_file")
         h2 = ihex.expected_hash(areas2).hex()
